@@ -18,6 +18,7 @@ open CC CC.Drv
 
 structure DS where
   cfg : Cfg := {}
+  memCache : Option (String × String) := none
   chacha : CC.Drv.ChaCha.St := {}
   blake : CC.Drv.Blake.St := {}
   jh : CC.Drv.JH.St := {}
@@ -51,7 +52,17 @@ def step (ds : DS) (line : String) : DS × String :=
     let (s, out) := CC.Drv.Groestl.step ds.cfg ds.groestl toks
     ({ ds with groestl := s }, out)
   | "simd" :: _ | "intrin" :: _ => (ds, CC.Drv.Simd.step toks)
-  | "mem" :: _ => (ds, CC.Drv.Mem.step ds.cfg toks)
+  | "mem" :: _ =>
+    -- the model's answer does not depend on the placement (last two tokens: front|back, align):
+    -- consecutive ops that differ only there are answered from a one-entry cache
+    let key := String.intercalate " " (toks.take (toks.length - 2)) ++ "|" ++ ds.cfg.backend
+    match ds.memCache with
+    | some (k, v) => if k == key then (ds, v) else
+        let v' := CC.Drv.Mem.step ds.cfg toks
+        ({ ds with memCache := some (key, v') }, v')
+    | none =>
+        let v' := CC.Drv.Mem.step ds.cfg toks
+        ({ ds with memCache := some (key, v') }, v')
   | "null" :: _ => (ds, CC.Drv.Null.step ds.cfg toks)
   | "tf" :: _ | "tfl" :: _ => (ds, CC.Drv.Threefish.step toks)
   | "skein" :: _ =>
